@@ -119,6 +119,63 @@ func (f *blobFrame) build() []byte {
 	return out.Bytes()
 }
 
+// field returns the idx-th size varint of the frame: 0 total body size, 1 tape size, then
+// (declared, block size) of strings, messages, tags, values.
+func (f *blobFrame) field(idx int) uint64 {
+	secs := []*section{&f.Strings, &f.Msg, &f.Tags, &f.Vals}
+	switch {
+	case idx == 0:
+		return uint64(len(f.build()) - 1) // approximate; only used to pick neighbours
+	case idx == 1:
+		return f.Ts
+	case idx%2 == 0:
+		return secs[(idx-2)/2].Declared
+	default:
+		return secs[(idx-2)/2].Size
+	}
+}
+
+// buildWith re-frames f with the idx-th size varint replaced by v (or, with overlong, by an
+// 11-byte varint); payload bytes stay those of the original sections.
+func (f *blobFrame) buildWith(idx int, v uint64, overlong bool) []byte {
+	n := 1
+	put := func(b *bytes.Buffer, orig uint64) {
+		if n == idx {
+			if overlong {
+				b.Write([]byte{0xff, 0xff, 0xff, 0xff, 0xff, 0xff, 0xff, 0xff, 0xff, 0xff, 0x02})
+			} else {
+				putUvarint(b, v)
+			}
+		} else {
+			putUvarint(b, orig)
+		}
+		n++
+	}
+	var body bytes.Buffer
+	put(&body, f.Ts)
+	for _, s := range []*section{&f.Strings, &f.Msg, &f.Tags, &f.Vals} {
+		put(&body, s.Declared)
+		put(&body, s.Size)
+		if s.Size > 0 {
+			body.WriteByte(s.Typ)
+			body.Write(s.Data)
+		}
+	}
+	var out bytes.Buffer
+	out.WriteByte(f.Version)
+	if idx == 0 {
+		if overlong {
+			out.Write([]byte{0xff, 0xff, 0xff, 0xff, 0xff, 0xff, 0xff, 0xff, 0xff, 0xff, 0x02})
+		} else {
+			putUvarint(&out, v)
+		}
+	} else {
+		putUvarint(&out, uint64(body.Len()))
+	}
+	out.Write(body.Bytes())
+	return out.Bytes()
+}
+
 // rawSection makes an uncompressed section holding data.
 func rawSection(data []byte) section {
 	if len(data) == 0 {
